@@ -473,7 +473,8 @@ pub fn cells(tier: Tier) -> Vec<CellPlan> {
         }
     }
     // Relationship graphs evolving through insert / replace / remove / despawn / marker toggles.
-    for &max in &[40usize, 1200] {
+    // (maximum sizes: one entity fits but two do not / two fit but three do not / everything fits)
+    for &max in &[22usize, 26, 30, 40, 1200] {
         let mut c = cells::base(&format!("graph-{max}"), "C10");
         c.cfg.with_child = true;
         c.cfg.sync_rel = true;
@@ -491,6 +492,7 @@ pub fn cells(tier: Tier) -> Vec<CellPlan> {
             Op::Mark(1),
             Op::ReMark(1),
             Op::Despawn(3),
+            Op::SpawnChild(3, cells::AB, 0),
         ];
         c.rounds = if q { 3 } else { 4 };
         c.tick_choice = false;
